@@ -222,10 +222,23 @@ pub fn gen_arg(ty: Ty, rng: &mut Rng) -> Arg {
         Ty::I128 => gen_int(rng, i128::MIN, i128::MAX),
         Ty::U64 => gen_int(rng, 0, u64::MAX as i128),
         Ty::I16 => gen_int(rng, i16::MIN as i128, i16::MAX as i128),
-        Ty::I32 => gen_int(rng, i32::MIN as i128, i32::MAX as i128),
-        Ty::U8 => gen_int(rng, 0, 255),
+        Ty::I32 => match rng.below(10) {
+            0..=3 => Arg::I(rng.below(10_200) as i128 - 100),
+            4..=5 => Arg::I([1900, 1899, 1901, 1972, 1980, 1999, 2000, 2004, 2006, 2012, 2016, 2017, 2020, 2100, 2400, 1600, 1, 0, -1, 9999, 4, 100, 400][rng.below(23) as usize]),
+            6..=7 => Arg::I(rng.below(200_001) as i128 - 100_000),
+            _ => gen_int(rng, i32::MIN as i128, i32::MAX as i128),
+        },
+        Ty::U8 => match rng.below(10) {
+            0..=4 => Arg::I(rng.below(33) as i128),
+            5..=7 => Arg::I(rng.below(62) as i128),
+            _ => gen_int(rng, 0, 255),
+        },
         Ty::I8 => gen_int(rng, -128, 127),
-        Ty::U32 => gen_int(rng, 0, u32::MAX as i128),
+        Ty::U32 => match rng.below(10) {
+            0..=3 => Arg::I(rng.below(1_000_000_001) as i128),
+            4..=5 => Arg::I([0, 1, 999_999_999, 1_000_000_000, 1_000_000_001, 500_000_000][rng.below(6) as usize]),
+            _ => gen_int(rng, 0, u32::MAX as i128),
+        },
         Ty::Unit => Arg::Unit(rng.below(9) as u8),
         Ty::Ts => Arg::Ts(rng.below(9) as u8),
         Ty::UTs => Arg::Ts(rng.below(N_UNIFORM as u64) as u8),
